@@ -483,7 +483,7 @@ theorem mapMOpt_xIcons : ∀ (cs : List Cons) (vp : Dict Props), PropsOK vp →
 
 /-! ### layer 7: iter / find on the mrs node -/
 
-def T3 (t : String) : Prop := t = "ep" ∨ t = "hcons" ∨ t = "icons"
+def T3 (t : String) : Prop := t = "ep" ∨ t = "hcons" ∨ t = "icons" ∨ t = "mrs"
 
 theorem iterL_append (t : String) (a b : List Xml) : Xml.iterL t (a ++ b) = Xml.iterL t a ++ Xml.iterL t b := by
   induction a with
@@ -496,21 +496,21 @@ theorem iterL_extrapair_nil (t : String) (ht : T3 t) (ps : List (Str × Str)) :
   | nil => simp [Xml.iterL]
   | cons p ps ih =>
     simp only [List.map_cons, Xml.iterL, ih]
-    rcases ht with rfl | rfl | rfl <;> simp [xExtrapair, xEl, xTx, Xml.iter, Xml.iterL]
+    rcases ht with rfl | rfl | rfl | rfl <;> simp [xExtrapair, xEl, xTx, Xml.iter, Xml.iterL]
 
 theorem iter_xVar (t : String) (ht : T3 t) (vp : Dict Props) (v : Str) : Xml.iter t (xVar vp v).1 = [] := by
   rw [xVar_fst]
   simp only [xEl, Xml.iter, iterL_extrapair_nil t ht]
-  rcases ht with rfl | rfl | rfl <;> simp
+  rcases ht with rfl | rfl | rfl | rfl <;> simp
 
 theorem iter_xLabel (t : String) (ht : T3 t) (l : Str) : Xml.iter t (xLabel l) = [] := by
-  rcases ht with rfl | rfl | rfl <;> simp [xLabel, xEl, Xml.iter, Xml.iterL]
+  rcases ht with rfl | rfl | rfl | rfl <;> simp [xLabel, xEl, Xml.iter, Xml.iterL]
 
 theorem iter_xPred (t : String) (ht : T3 t) (p : Str) : Xml.iter t (xPred p) = [] := by
   unfold xPred
   split
-  · rcases ht with rfl | rfl | rfl <;> simp [xEl, Xml.iter, Xml.iterL]
-  · split <;> rcases ht with rfl | rfl | rfl <;> simp [xTx, Xml.iter, Xml.iterL]
+  · rcases ht with rfl | rfl | rfl | rfl <;> simp [xEl, Xml.iter, Xml.iterL]
+  · split <;> rcases ht with rfl | rfl | rfl | rfl <;> simp [xTx, Xml.iter, Xml.iterL]
 
 theorem iterL_xArgs (t : String) (ht : T3 t) : ∀ (as : Dict Str) (vp : Dict Props), Xml.iterL t (xArgs vp as).1 = [] := by
   intro as
@@ -523,17 +523,17 @@ theorem iterL_xArgs (t : String) (ht : T3 t) : ∀ (as : Dict Str) (vp : Dict Pr
     · subst hr
       rw [xArgs_carg]
       simp only [Xml.iterL, ih]
-      rcases ht with rfl | rfl | rfl <;> simp [xEl, xTx, Xml.iter, Xml.iterL]
+      rcases ht with rfl | rfl | rfl | rfl <;> simp [xEl, xTx, Xml.iter, Xml.iterL]
     · rw [xArgs_var _ _ _ _ hr]
       simp only [Xml.iterL, ih]
       have hx := iter_xVar t ht vp val
-      rcases ht with rfl | rfl | rfl <;> simp [xEl, xTx, Xml.iter, Xml.iterL, hx]
+      rcases ht with rfl | rfl | rfl | rfl <;> simp [xEl, xTx, Xml.iter, Xml.iterL, hx]
 
 theorem iter_xEp (t : String) (ht : T3 t) (o : Opts) (vp : Dict Props) (e : EP) :
     Xml.iter t (xEp o vp e).1 = if t = "ep" then [(xEp o vp e).1] else [] := by
   rw [xEp_eq]
   simp only [xEl, Xml.iter, Xml.iterL, iter_xPred t ht, iter_xLabel t ht, iterL_xArgs t ht]
-  rcases ht with rfl | rfl | rfl <;> simp
+  rcases ht with rfl | rfl | rfl | rfl <;> simp
 
 theorem iterL_xEps (t : String) (ht : T3 t) (o : Opts) : ∀ (es : List EP) (vp : Dict Props),
     Xml.iterL t (xEps o vp es).1 = if t = "ep" then (xEps o vp es).1 else [] := by
@@ -557,7 +557,7 @@ theorem iterL_xHcons (t : String) (ht : T3 t) : ∀ (cs : List Cons) (vp : Dict 
     simp only [Xml.iterL, ih]
     have hx := iter_xVar t ht vp c.lhs
     have hl := iter_xLabel t ht c.rhs
-    rcases ht with rfl | rfl | rfl <;> simp [xEl, Xml.iter, Xml.iterL, hx, hl]
+    rcases ht with rfl | rfl | rfl | rfl <;> simp [xEl, Xml.iter, Xml.iterL, hx, hl]
 
 theorem iterL_xIcons (t : String) (ht : T3 t) : ∀ (cs : List Cons) (vp : Dict Props),
     Xml.iterL t (xIcons vp cs).1 = if t = "icons" then (xIcons vp cs).1 else [] := by
@@ -570,7 +570,7 @@ theorem iterL_xIcons (t : String) (ht : T3 t) : ∀ (cs : List Cons) (vp : Dict 
     simp only [Xml.iterL, ih]
     have hx := iter_xVar t ht vp c.lhs
     have hy := iter_xVar t ht (xVar vp c.lhs).2 c.rhs
-    rcases ht with rfl | rfl | rfl <;> simp [xEl, Xml.iter, Xml.iterL, hx, hy]
+    rcases ht with rfl | rfl | rfl | rfl <;> simp [xEl, Xml.iter, Xml.iterL, hx, hy]
 
 theorem xEps_tags (o : Opts) : ∀ (es : List EP) (vp : Dict Props), ∀ x ∈ (xEps o vp es).1, x.tag = "ep" := by
   intro es
@@ -697,6 +697,16 @@ theorem find_var (at_ : List (String × Str)) (top ix : Option Str) (vp0 : Dict 
   | none => simp [ixPair]
   | some i => simp [ixPair, xVar_tag]
 
+/-- no element below the `mrs` node the encoder builds has the tag `mrs`. -/
+theorem iter_mrs_toXml (o : Opts) (m : MRS) : Xml.iter "mrs" (toXml o m) = [toXml o m] := by
+  have e4 : T3 "mrs" := Or.inr (Or.inr (Or.inr rfl))
+  rw [toXml_eq o m _ rfl]
+  have a1 := iterL_xEps "mrs" e4 o m.rels (ixPair (if o.properties = true then m.vars else []) m.index).2
+  have a2 := iterL_xHcons "mrs" e4 m.hcons (xEps o (ixPair (if o.properties = true then m.vars else []) m.index).2 m.rels).2
+  have a3 := iterL_xIcons "mrs" e4 m.icons
+    (xHcons (xEps o (ixPair (if o.properties = true then m.vars else []) m.index).2 m.rels).2 m.hcons).2
+  simp [xEl, Xml.iter, iterL_append, topX_iter "mrs" e4, ixPair_iter "mrs" e4, a1, a2, a3]
+
 end Verif.C01.MrxL
 
 namespace Verif.C01
@@ -723,7 +733,7 @@ theorem ofXml_toXml (o : Opts) (m : MRS) (h : ExprX m) : ofXml (toXml o m) = som
   have tI := xIcons_tags m.icons (xHcons (xEps o (ixPair vp0 m.index).2 m.rels).2 m.hcons).2
   have e1 : T3 "ep" := Or.inl rfl
   have e2 : T3 "hcons" := Or.inr (Or.inl rfl)
-  have e3 : T3 "icons" := Or.inr (Or.inr rfl)
+  have e3 : T3 "icons" := Or.inr (Or.inr (Or.inl rfl))
   generalize hEd : (xEps o (ixPair vp0 m.index).2 m.rels).1 = E at *
   generalize hHd : (xHcons (xEps o (ixPair vp0 m.index).2 m.rels).2 m.hcons).1 = H at *
   generalize hId : (xIcons (xHcons (xEps o (ixPair vp0 m.index).2 m.rels).2 m.hcons).2 m.icons).1 = I at *
